@@ -12,6 +12,8 @@ import (
 	"fmt"
 	"io"
 	"net/url"
+	"runtime"
+	"sort"
 	"strconv"
 	"strings"
 	"sync"
@@ -291,6 +293,7 @@ type chunkReader struct {
 	data  []byte
 	pos   int
 	chunk int
+	yield bool // give other goroutines a chance between the copy and the return (widens race windows)
 }
 
 func (r *chunkReader) Read(p []byte) (int, error) {
@@ -308,6 +311,12 @@ func (r *chunkReader) Read(p []byte) (int, error) {
 	}
 	copy(p, r.data[r.pos:r.pos+n])
 	r.pos += n
+	if r.yield {
+		r.mu.Unlock()
+		time.Sleep(200 * time.Microsecond)
+		runtime.Gosched()
+		r.mu.Lock()
+	}
 	return n, nil
 }
 
@@ -397,6 +406,77 @@ func runImplRaw(line string) string {
 			r += " MUTATED-ARG"
 		}
 		return r
+	case "gvhotp":
+		if len(f) != 5 {
+			return bad
+		}
+		s, ok1 := unhex(f[1])
+		c1, e1 := strconv.ParseUint(f[2], 10, 64)
+		c2, e2 := strconv.ParseUint(f[3], 10, 64)
+		p, ok2 := parseParam(f[4])
+		if !ok1 || e1 != nil || e2 != nil || !ok2 {
+			return bad
+		}
+		code, err := otp.GenerateHOTP(string(s), c1, p)
+		if err != nil {
+			lastErrText = err.Error()
+			return "gen-err " + errClass(err)
+		}
+		// the very string object returned by the library is submitted (no copy)
+		return "gen-ok " + showVerdict(otp.ValidateHOTP(string(s), code, c2, p))
+	case "gvtotp":
+		if len(f) != 5 {
+			return bad
+		}
+		s, ok1 := unhex(f[1])
+		t1, ok3 := mkTime(f[2], "0", "0", "0")
+		t2, ok4 := mkTime(f[3], "0", "0", "0")
+		p, ok2 := parseParam(f[4])
+		if !ok1 || !ok2 || !ok3 || !ok4 {
+			return bad
+		}
+		code, err := otp.GenerateTOTP(string(s), t1, p)
+		if err != nil {
+			lastErrText = err.Error()
+			return "gen-err " + errClass(err)
+		}
+		return "gen-ok " + showVerdict(otp.ValidateTOTP(string(s), code, t2, p))
+	case "rndpar":
+		if len(f) != 4 {
+			return bad
+		}
+		a, e := strconv.ParseUint(f[1], 10, 8)
+		st, ok := unhex(f[2])
+		n, e2 := strconv.Atoi(f[3])
+		if e != nil || !ok || e2 != nil {
+			return bad
+		}
+		old := rand.Reader
+		cr := &chunkReader{data: st, chunk: 0, yield: true}
+		rand.Reader = cr
+		res := make([]string, n)
+		var wg sync.WaitGroup
+		for i := 0; i < n; i++ {
+			wg.Add(1)
+			go func(i int) {
+				defer wg.Done()
+				defer func() {
+					if recover() != nil {
+						res[i] = "panic"
+					}
+				}()
+				s, err := otp.RandomSecret(otp.Algorithm(a))
+				if err != nil {
+					res[i] = "err " + errClass(err)
+				} else {
+					res[i] = "ok " + hx([]byte(s))
+				}
+			}(i)
+		}
+		wg.Wait()
+		rand.Reader = old
+		sort.Strings(res)
+		return strings.Join(res, " ")
 	case "gocra", "vocra":
 		n := 4
 		if f[0] == "vocra" {
